@@ -57,6 +57,15 @@ CHECKS = {
  "C20": ("fault_enumeration", "runtime monitoring: corruption enumeration - every slab x {delete referenced, add unreferenced, double reference, foreign owner} x {ledger level, storage API uncommitted/committed} against CheckStorageHealth; GetAllChildReferences vs independent walk",
          "For storages from valid histories the health check must accept (warm with pending writes, after commit, fresh+preloaded) and return the true roots, and must reject every enumerated single-slab corruption in every modality; the child-reference query is compared as multisets with an independent walk.",
          "Storages over 70 slabs are sampled keeping every reference kind; index->child references are not byte-patchable for the foreign-owner kind.", "DESIGN.md §4 C20"),
+ "C04": ("exploration", "runtime monitoring: replica differential - the same history re-executed under varied worker counts, GOMAXPROCS, ledger-call jitter, object-pool state and in different OS processes; ordered commit write logs and registers compared; ascending-order monitor on every deterministic commit",
+         "Every history runs as 6-9 replicas across 2-3 worker processes; the sequence (deterministic commit) or multiset (relaxed commit) of ledger writes with content hashes, the final registers and map seeds must be identical; each deterministic commit log must be strictly ascending in (owner, index).",
+         "Schedules, map iteration orders and processes are sampled by repetition, not enumerated.", "DESIGN.md §4 C04"),
+ "C16": ("exploration", "sanitizer + differential twin: Go race detector build (every report is a violation) over parallel commit / preload / error-path scenarios with injected jitter inside caller callbacks, each compared with a sequential re-implementation; concurrent independent clients compared with their solo runs",
+         "Race-detector build; worker counts 1-64 x GOMAXPROCS 1-16 x jitter; registers, cache content and errors compared with a one-goroutine reference; G=2..32 goroutines with private storages must obtain exactly their solo transcripts and registers.",
+         "The race detector only sees executed interleavings; interleavings are sampled.", "DESIGN.md §4 C16"),
+ "C19": ("exploration", "hostile-input monitor: mutational corpus (valid v1 registers of every slab kind + version-0 twins) under structure-aware mutators; panic / allocation / canary oracle with the input written to disk before each call; process watchdog for hangs",
+         "Millions of mutated registers are fed to DecodeSlab and the header queries; accepted slabs have their size and child-reference accessors walked; any panic, process death, disproportionate allocation or hang is a violation.",
+         "All byte strings is a corpus; never-loops is a bounded-time observation. Uses the harness' hardened storable decoder (test_utils' decoder itself allocates unboundedly on a crafted level count).", "DESIGN.md §4 C19"),
 }
 
 NOT_YET = {}
